@@ -1,6 +1,6 @@
 import FlytModel.Generated.IR
 import FlytModel.Expected.IR
-/-! The translation of `BaseNode_GetWait` from the CURRENT source is, term for term, the IR the refinement theorems are about. -/
+/-! The translation of `BaseNode_GetWait` from the CURRENT source is, term for term, the expected IR. -/
 namespace Flyt.Tie
 theorem BaseNode_GetWait : Flyt.Generated.IR.BaseNode_GetWait = Flyt.Expected.IR.BaseNode_GetWait := rfl
 end Flyt.Tie
